@@ -171,10 +171,16 @@ def main(argv=None):
     reasons = list(problems)
     if not results:
         reasons.append("no worker result")
+    # the thresholds are stated for shards that used their whole CPU budget; shards stopped by the wall-clock
+    # cap (machine overloaded) did proportionally less, and are held to proportionally less - never below a
+    # quarter of the stated numbers
+    cpu_nominal = float(len(results) * mod.BUDGET[a.tier]) or 1.0
+    cpu_used = sum(r.get("cpu_s", 0) for r in results)
+    min_scale = min(1.0, max(0.25, cpu_used / cpu_nominal))
     for oracle, least in getattr(mod, "MIN", {}).get(a.tier, {}).items():
         got = sum(c for k, c in agg["counters"].items() if k == oracle or k.startswith(oracle))
-        if got < least:
-            reasons.append("monitor %r evaluated %d < %d times" % (oracle, got, least))
+        if got < least * min_scale:
+            reasons.append("monitor %r evaluated %d < %d times" % (oracle, got, int(least * min_scale)))
     for cellname in getattr(mod, "REQUIRED_CELLS", {}).get(a.tier, ()):
         if not agg["cells"].get(cellname):
             reasons.append("coverage cell %r never reached" % cellname)
@@ -212,6 +218,7 @@ def main(argv=None):
             and agg["notes"].get("exhaustive_done", len(results)) == len(results),
             known_findings_reproduced={k: agg["sig_count"].get("known:" + k, 0) for k in known_seen},
             findings_by_signature=agg["sig_count"],
+            cpu_s=dict(budget=cpu_nominal, used=round(cpu_used, 1), min_threshold_scale=round(min_scale, 3)),
             library_reach=library_reach,
             library_reach_shards=agg["reach_shards"],
             inconclusive_reasons=reasons,
